@@ -37,6 +37,7 @@ def run(tier, t0):
         member_sets += [["m%d" % i for i in range(1, 9)], ["m1", "m1", "m2", "m3", "m3", "m3", "m4"]]
     for ms in member_sets:
         scen.append(("rr", "rr", ms))
+        scen.append(("rrconc", "rr", ms))
         scen.append(("random", "random", ms))
         for key in KEYS:
             scen.append(("hash", key, ms))
@@ -45,13 +46,18 @@ def run(tier, t0):
     events = 0
     samples = []
     for si, (algo, arg, ms) in enumerate(scen):
+        mode = "conc" if algo == "rrconc" else "seq"
+        algo = "rr" if algo == "rrconc" else algo
+        ntasks = 1 if (algo == "rr" and mode == "seq") else tasks
         n = len(ms)
         uniq = sorted(set(ms))
         per = (60 if thorough else 25) * n if algo != "random" else 200 * n // tasks + 1
+        if algo == "rr":
+            per = 40 * n if mode == "seq" else (400 if thorough else 150) * n
         algo_yaml = {"rr": "rr", "random": "random"}.get(algo) or '{hashBy: "%s"}' % arg.replace('"', '\\"')
         yaml = "name: lb\ntype: loadbalance\nconnectors: [%s]\nalgo: %s\n" % (", ".join(ms), algo_yaml)
         reqs = reqs_pool(rnd, 40)
-        case = {"id": si, "yaml": yaml, "lb": "lb", "members": uniq, "tasks": tasks, "per_task": per, "reqs": reqs}
+        case = {"id": si, "yaml": yaml, "lb": "lb", "members": uniq, "tasks": ntasks, "per_task": per, "reqs": reqs}
         cp = os.path.join(wd, "lb_%d.ndjson" % si)
         vlib.write_ndjson(cp, [case])
         vt = os.path.join(wd, "vtrace_%d.ndjson" % si)
@@ -66,14 +72,13 @@ def run(tier, t0):
             v.report("lb/load/%s/%s" % (algo, r["load"]), r.get("err"), rep)
             continue
         sel = [e for e in vlib.read_ndjson(vt) if e["ev"] == "lb_select"] if os.path.exists(vt) else []
-        if algo == "rr":
-            sel.sort(key=lambda e: e["ticket"])
+        sel.sort(key=lambda e: e["seq"])
         inv = {}
         for name, cid in r["invoked"]:
             inv[cid] = name
         keys = sorted({e.get("key", "") for e in sel if e["algo"] == "hash"})
-        lines = [{"ev": "hdr", "members": ms, "algo": algo, "keys": keys or ["-"]}]
-        lines += [{k: e[k] for k in e if k not in ("seq", "t", "lb")} for e in sel]
+        lines = [{"ev": "hdr", "members": ms, "algo": algo, "mode": mode, "keys": keys or ["-"]}]
+        lines += [{k: e[k] for k in e if k not in ("seq", "t", "lb", "ticket", "n")} for e in sel]
         for c in r["calls"]:
             lines.append({"ev": "obs", "invoked": inv.get(c["ctx"], "NONE"), "recorded": c["recorded"] or "NONE"})
         counts = {m: 0 for m in uniq}
@@ -92,7 +97,7 @@ def run(tier, t0):
             keep = os.path.join(vlib.EVID, "replay", "C17_trace_%d.ndjson" % si)
             os.makedirs(os.path.dirname(keep), exist_ok=True)
             vlib.write_ndjson(keep, lines)
-            v.report("lb/trace-rejected/%s" % algo, {"members": ms, "arg": arg, "info": info},
+            v.report("lb/trace-rejected/%s%s" % (algo, "-concurrent" if mode == "conc" and algo == "rr" else ""), {"members": ms, "arg": arg, "info": info},
                      {"trace": keep, "cmd": "cd spec && TRACE=%s tlc -workers 1 -config TraceLB.cfg TraceLB.tla" % keep})
         # hash-by: equal keys (computed from the request by the documented attribute meaning) => equal member
         if algo == "hash":
@@ -104,6 +109,37 @@ def run(tier, t0):
                 v.report("lb/hash-unstable", {"key_expr": arg, "members_per_key": {k: sorted(x or "-" for x in s) for k, s in by.items()}}, rep)
         if len(samples) < 3 and algo in ("rr", "hash"):
             samples.append({"members": ms, "algo": algo, "arg": arg, "events": lines[1:4], "sum": lines[-1]})
+    # round robin under heavy contention: many threads, nothing but the selection is shared; judged by TraceLB's totals law
+    hammered = 0
+    for hi, ms in enumerate(member_sets):
+        n = len(ms)
+        uniq = sorted(set(ms))
+        per = (400000 if thorough else 100000) // n * n
+        case = {"id": 1000 + hi, "yaml": "name: lb\ntype: loadbalance\nconnectors: [%s]\nalgo: rr\n" % ", ".join(ms), "lb": "lb", "members": uniq,
+                "tasks": 16, "per_task": per, "hammer": per, "reqs": reqs_pool(rnd, 16)}
+        cp = os.path.join(wd, "hammer_%d.ndjson" % hi)
+        vlib.write_ndjson(cp, [case])
+        rc, out, err = vlib.vh(["lb", cp], timeout=900)
+        if rc != 0:
+            raise vlib.ToolError("vh lb (hammer) failed: " + err)
+        r = [json.loads(x) for x in out.splitlines() if x.strip()][0]
+        if r.get("load") != "ok":
+            v.report("lb/load/hammer/%s" % r.get("load"), r.get("err"), {"driver": "vh lb", "case": case})
+            continue
+        hammered += r["total"]
+        # the totals law of the spec, evaluated on the observed counts: k*n selections => k per position
+        k = r["total"] // n
+        bad = {m: c for m, c in r["hammer"].items() if c != k * ms.count(m)}
+        lines = [{"ev": "hdr", "members": ms, "algo": "rr", "mode": "conc", "keys": ["-"]}]
+        tp = os.path.join(wd, "hammer_trace_%d.ndjson" % hi)
+        vlib.write_ndjson(tp, lines + [{"ev": "hammer", "counts": r["hammer"], "total": r["total"]}])
+        acc, info, tr = vlib.validate_trace("TraceLB", "TraceLB.cfg", tp, timeout=300, name="trace_lb_hammer")
+        traces += 1
+        if bool(bad) == acc:
+            raise vlib.ToolError("TraceLB and the driver disagree on the totals law: %s %s" % (bad, info))
+        if not acc:
+            v.report("lb/rr/unbalanced-under-contention", {"members": ms, "counts": r["hammer"], "total": r["total"], "expected_each": k},
+                     {"driver": "vh lb", "case": case})
     ev = vlib.evidence(PID, tier, "model_checking", {
         "states": mc.distinct + mc2.distinct, "transitions": mc.generated + mc2.generated, "traces_validated_against_impl": traces,
         "samples": samples, "evaluations": events, "distinct_nontrivial": traces,
@@ -111,7 +147,7 @@ def run(tier, t0):
                 "HashStable; the real LoadBalanceConnector (built from YAML by connectors::from_value) over recording members is driven from "
                 "%d tasks on a multi-thread runtime; its lb_select events (ticket order), the members invoked and the connector recorded "
                 "on each context are validated by TraceLB; one trace per (member list, algorithm / key expression)" % tasks,
-        "scenarios": len(scen), "exhaustive": False, "checker_cmd": mc.cmd,
+        "scenarios": len(scen), "rr_selections_under_contention": hammered, "exhaustive": False, "checker_cmd": mc.cmd,
     }, ["random: only membership and non-zero frequency in 200*n draws", "hash function itself is opaque; only stability per key is demanded"])
     return v.finish(ev, t0)
 
